@@ -80,6 +80,15 @@ def check(ctx):
         g = A.group_form(repo, fn)
         n += 1
         want_d, want_k = tables.C07_SPEC[h]
+        if g.get("positional") is not None:
+            verdict_, wit_, txt_ = g["positional"]
+            ctx.ob("SIB-7", g["closure"], f"group form of {h} selects {txt_[:60]}", g["call"], bool(verdict_),
+                   "the group's element at `index` when it exists, the default otherwise -- the same as x[index] in the vector form "
+                   "(decided for all group sizes and indices)" if verdict_ else
+                   f"for index = {wit_[0]} and a group of {wit_[1]} element(s) the group-wise kernel gives "
+                   f"{'element ' + str(wit_[2] - 100) if isinstance(wit_[2], int) else wit_[2]}, the vector form x[index] gives "
+                   f"{'element ' + str(wit_[3] - 100) if isinstance(wit_[3], int) else 'the default'}: the helper and the equivalent lambda disagree",
+                   clause="first / last / nth return the element at that position when it exists")
         # ---- thresholds
         ok = v["k"] == want_k
         ctx.ob("SIB-7", fn, f"vector form: minimum size {v['k']}", fn.node, ok,
